@@ -1288,6 +1288,30 @@ val nd_segs :
 
 val m_find_nd : envcfg -> supply -> query -> json -> node list result
 
+val st_nodes :
+  ('a1 -> 'a2 -> (node list * 'a1) result) -> 'a1 -> 'a2 list -> (node
+  list * 'a1) result
+
+val st_filter :
+  ('a1 -> node -> (pyobj * 'a1) result) -> 'a1 -> node list -> (node
+  list * 'a1) result
+
+val g_expr :
+  envcfg -> json -> json -> supply -> expr -> (pyobj * supply) result
+
+type st2 = supply * supply
+
+val nd2_sel : envcfg -> json -> st2 -> sel -> node -> (node list * st2) result
+
+val nd2_sels :
+  envcfg -> json -> st2 -> sel list -> node -> (node list * st2) result
+
+val nd2_seg :
+  envcfg -> json -> st2 -> seg -> node list -> (node list * st2) result
+
+val nd2_segs :
+  envcfg -> json -> st2 -> seg list -> node list -> (node list * st2) result
+
 val loc_eqb : key list -> key list -> bool
 
 val index_of : key list -> key list list -> nat -> nat option
@@ -1502,6 +1526,8 @@ val op_valid_order : z list -> z list
 val op_all_orders : z list -> z list
 
 val op_find_nd : z list -> z list
+
+val op_find_nd2 : z list -> z list
 
 val op_nd_results : z list -> z list
 
